@@ -238,12 +238,44 @@ def nodeid_to_bytes_rows(F, fn):
                 rows.append((off, field_path(src[2][0]), INT_W.get(impl_int(src[1]), '?'), en))
             else:
                 rows.append((off, '?' + show(src), '?', '?'))
+    if not rows:
+        # `[self.mode as u8, b0, b1, b2, b3]` with `let [b0, b1, b2, b3] = self.item.to_be_bytes()`
+        for b, k, t in paths.ret_assigns(fn):
+            a = strip(t)
+            if a[0] != 'array':
+                continue
+            i = 0
+            els = a[1]
+            while i < len(els):
+                e = strip(els[i])
+                if e[0] == 'cindex' and strip(e[1])[0] == 'call' and strip(e[1])[1].endswith(('to_be_bytes', 'to_le_bytes', 'to_ne_bytes')):
+                    c = strip(e[1])
+                    w = INT_W.get(impl_int(c[1]), 0)
+                    idxs = []
+                    for j2 in range(i, min(i + w, len(els))):
+                        ej = strip(els[j2])
+                        if ej[0] == 'cindex' and strip(ej[1])[0] == 'call' and strip(ej[1])[3] == c[3]:
+                            idxs.append(ej[2])
+                    en = {'to_be_bytes': 'BE', 'to_le_bytes': 'LE', 'to_ne_bytes': 'NE'}[c[1].rsplit('::', 1)[1]]
+                    if idxs == list(range(w)):
+                        rows.append((i, field_path(c[2][0]), w, en))
+                    else:
+                        rows.append((i, '?bytes of %s in order %s' % (field_path(c[2][0]), idxs), w, '?'))
+                    i += max(w, 1)
+                else:
+                    rows.append((i, field_path(e), 1, '-'))
+                    i += 1
     rows.sort(key=lambda r: (r[0] is None, r[0]))
     size = None
     rt = fn.ret_ty()
     m = re.match(r'\[u8; (\d+)\]', rt)
     if m:
         size = int(m.group(1))
+    else:
+        for b, k, t in paths.ret_assigns(fn):
+            a = strip(t)
+            if a[0] == 'array':
+                size = len(a[1])
     return rows, size
 
 
@@ -357,6 +389,8 @@ def producer(t):
             t = t[2][0]
         elif t[0] == 'cast':
             t = t[2]
+        elif t[0] == 'field' and t[2] == '0' and strip(t[1])[0] == 'downcast' and strip(t[1])[2] in ('Ok', 'Some', 'Continue'):
+            t = strip(t[1])[1]
         else:
             return t
 
@@ -412,6 +446,8 @@ def decoder_rows(F, fn):
         if k != 'ok':
             continue
         payload = strip(dict(t[3])['0'])
+        if payload[0] == 'call' and payload[1] == 'key::Key::new' and len(payload[2]) == 2:
+            payload = ('agg', 'key::Key', 'Key', [('index', payload[2][0]), ('node', payload[2][1]), ('_padding', ('const', 'u8', 0))])
         rows = []
         for name, ft in decoded_fields(F, fn, payload):
             rows.append((name,) + _scalar(F, fn, ft) + (ft,))
@@ -425,6 +461,21 @@ def norm_row(r):
     if len(r) == 3 and r[1] == 1 and r[0] != 'tag':
         return (r[0], 1, '-')
     return r
+
+
+def expand_nodeid(rows, F):
+    """replace (field, 'NodeId', 'nodeid') rows by the rows of NodeId::to_bytes prefixed with the field path"""
+    tb = F.fn('node_id::NodeId::to_bytes')
+    sub = nodeid_to_bytes_rows(F, tb)[0] if tb is not None else []
+    out = []
+    for r in rows:
+        r = tuple(r)
+        if len(r) == 3 and r[1] == 'NodeId':
+            for off, what, w, en in sub:
+                out.append(norm_row(('%s.%s' % (r[0], what), w, en)))
+        else:
+            out.append(norm_row(r))
+    return out
 
 
 def find_codec(F, trait, selfty):
@@ -442,7 +493,7 @@ def check_key_encoder(ctx, rule):
         return None
     enc, unk = encoder_rows(F, f)
     want = [norm_row(r) for r in ref['key']]
-    got = list(enc.values())
+    got = [expand_nodeid(rows, F) for rows in enc.values()]
     ok = len(got) == 1 and [tuple(r) for r in got[0]] == want and not unk
     ctx.check(ok, rule, 'KeyCodec/encode', f.loc(), 'rows %s' % want,
               'KeyCodec::bytes_encode writes %s; the reference layout is %s' % (got, want))
